@@ -24,26 +24,39 @@ func withAnon(fn *ssa.Function) []*ssa.Function {
 // calls matching calleePat in fn and its closures.
 func constCallArgs(fn *ssa.Function, calleePat string, argIdx int) []string {
 	set := map[string]bool{}
-	for _, f := range withAnon(fn) {
-		for _, b := range f.Blocks {
-			for _, in := range b.Instrs {
-				c, ok := in.(ssa.CallInstruction)
-				if !ok || !prov.Match(calleePat, prov.CalleeName(c.Common())) {
-					continue
-				}
-				args := c.Common().Args
-				if argIdx < len(args) {
-					if k, ok := args[argIdx].(*ssa.Const); ok {
-						set[strings.TrimPrefix(prov.Of(k), "const:")] = true
-					} else if cv, ok := args[argIdx].(*ssa.Convert); ok {
-						if k, ok := cv.X.(*ssa.Const); ok {
-							set[strings.TrimPrefix(prov.Of(k), "const:")] = true
+	var scan func(fn *ssa.Function, depth int)
+	scan = func(fn *ssa.Function, depth int) {
+		for _, f := range withAnon(fn) {
+			for _, b := range f.Blocks {
+				for _, in := range b.Instrs {
+					c, ok := in.(ssa.CallInstruction)
+					if !ok {
+						continue
+					}
+					if !prov.Match(calleePat, prov.CalleeName(c.Common())) {
+						// a helper the rule tables do not know: the same scan inside it,
+						// with its parameters standing for the arguments of this call
+						if h := c.Common().StaticCallee(); h != nil && h.Blocks != nil && depth < 2 && !prov.KnownFunction(h) && h.Pkg != nil &&
+							strings.HasPrefix(h.Pkg.Pkg.Path(), prov.ModulePrefix) && len(c.Common().Args) == len(h.Params) && !c.Common().IsInvoke() {
+							prov.PushSubst(h, c.Common())
+							scan(h, depth+1)
+							prov.PopSubst()
+						}
+						continue
+					}
+					args := c.Common().Args
+					if argIdx < len(args) {
+						t := prov.Of(args[argIdx])
+						t = strings.TrimSuffix(strings.TrimPrefix(t, "conv("), ")")
+						if strings.HasPrefix(t, "const:") {
+							set[strings.TrimPrefix(t, "const:")] = true
 						}
 					}
 				}
 			}
 		}
 	}
+	scan(fn, 0)
 	return sortedKeys(set)
 }
 
